@@ -10,9 +10,7 @@ import (
 )
 
 // notApplicable lists the properties that are deliberately not claimed.
-var notApplicable = map[string]string{
-	"C18": "End-to-end HTTP map semantics over request histories and configurations is a statement about runtime values crossing the wire; the handler-level structure visible statically is already claimed under C01/C02/C17 and no further non-brittle necessary condition was found (DESIGN.md §4 C18, §7).",
-}
+var notApplicable = map[string]string{}
 
 const staticNote = "Trusted base: go/packages+go/types+go/ssa (x/tools v0.50.0, go1.26.8) as a model of the compiled program; no alias analysis beyond receiver/parameter-rooted access paths and single-store locals; intra-procedural path rules with wrapper summaries of bound 1; anchors resolved by role or qualified name (a renamed anchor makes the check exit 2 'no verdict', not report a violation). Only the structural necessary conditions named in the level text are decided; the behavioural statement is not."
 
